@@ -392,7 +392,21 @@ def raw_books():
             P + 'E6': '=TEXTJOIN("-",TRUE,%sA1:A3)&%sK1' % (P, P)}
     keys = [('t', 'bean'), ('t', 'CHERRY'), ('t', 'x'), ('t', 'a*'), ('n', 20.0), ('e', '#N/A'), ('t', 'apple')]
     nums = [('n', 1.0), ('n', 3.0), ('n', 2.0), ('n', 0.0), ('t', 'q'), ('n', 25.0)]
-    return {'lookup': (look, [(P + 'D1', nums), (P + 'K1', keys)], ['E1', 'E2', 'E3', 'E4', 'E5', 'E6']),
+    sump = {P + 'A1': 1, P + 'A2': 2, P + 'A3': 3, P + 'B1': 1, P + 'B2': 1, P + 'B3': 1,
+            P + 'E1': '=SUMPRODUCT(%sA1:A3,%sB1:B3)' % (P, P), P + 'E2': '=SUM(%sA1:A3)*%sB2' % (P, P), P + 'E3': '=MAX(%sB1:B3)&"|"&%sA1' % (P, P),
+            P + 'E4': '=SUM(%sA1:B3)' % P, P + 'E5': '=INDEX(%sA1:A3,2)+%sB1' % (P, P), P + 'E6': '=COUNT(%sA1:A3,%sB1:B3)' % (P, P)}
+    small = [('n', 2.0), ('n', 50.0), ('n', 0.0), ('t', 'q')]
+    # a range with an unpopulated cell given as ONE argument; the blank cell is also read directly
+    blank = {P + 'A1': 1, P + 'A3': 3, P + 'E1': '=%sA1+1' % P, P + 'E2': '=%sA2+1' % P, P + 'E3': '=%sA3+1' % P, P + 'E4': '=SUM(%sA1:A3)' % P,
+             P + 'E5': '=COUNT(%sA1:A3)&ISBLANK(%sA2)' % (P, P), P + 'E6': '=%sD1*2' % P, P + 'D1': 5}
+    cols = [[('n', 1.0), ('n', 2.0), ('n', 3.0)], [('n', 7.0), ('t', 'x'), ('n', 9.0)], [('n', 0.0), ('n', 0.0), ('e', '#N/A')]]
+    # a range with several unpopulated cells (assembled through the dispatcher's SELF reference); one of the blanks is an input
+    sparse = {P + 'G1': 1, P + 'G4': 4, P + 'D1': 5, P + 'E1': '=SUM(%sG1:G5)+%sD1' % (P, P), P + 'E2': '=COUNT(%sG1:G5)&"|"&%sD1' % (P, P),
+              P + 'E3': '=%sG1*10+%sD1' % (P, P), P + 'E4': '=SUM(%sG1:G5)*2' % P, P + 'E5': '=MAX(%sG1:G5)&%sG1' % (P, P), P + 'E6': '=%sD1&"x"' % P}
+    return {'sparse2': (sparse, [(P + 'D1', small), (P + 'G2', small), (P + 'G1', small)], ['E1', 'E2', 'E3', 'E4', 'E5', 'E6']),
+            'blankrange': (blank, [(P + 'A1:A3', cols), (P + 'D1', small)], ['E1', 'E2', 'E3', 'E4', 'E5', 'E6']),
+            'sumprod': (sump, [(P + 'B1', small), (P + 'A1', small), (P + 'A2', small)], ['E1', 'E2', 'E3', 'E4', 'E5', 'E6']),
+            'lookup': (look, [(P + 'D1', nums), (P + 'K1', keys)], ['E1', 'E2', 'E3', 'E4', 'E5', 'E6']),
             'criteria': (crit, [(P + 'D1', nums), (P + 'K1', keys)], ['E1', 'E2', 'E3', 'E4', 'E5', 'E6'])}
 
 
@@ -425,13 +439,13 @@ def run_raw(case):
         for args in order:
             ex += 1
             try:
-                res = func(*[to_scalar(a) for a in args])
+                res = func(*[to_lib(a) for a in args])
                 res = res if isinstance(res, (list, tuple)) and len(outs) > 1 else [res]
                 got = [val(r) for r in res]
             except Exception as e:
                 fails.append(Fail('call-escape', got='%s:%s' % (exc_name(e), str(e)[:80]), exp='values', args=str(args), **desc))
                 continue
-            sol = fresh.calculate({i: to_scalar(a) for (i, _), a in zip(ins, args)})
+            sol = fresh.calculate({i: to_lib(a) for (i, _), a in zip(ins, args)})
             exp = [val(sol[P + o]) for o in outs]
             for o, g, e in zip(outs, got, exp):
                 oc.add('raw:' + (g[1] if g[0] == 'e' else g[0]))
@@ -440,6 +454,27 @@ def run_raw(case):
                     break
         if len(fails) > 6:
             break
+    # several functions compiled from ONE model with different input lists, and calculations in between: what one of them (or the
+    # model) computes must not show in the values the others froze at compile time
+    all_ins = raw_books()[name][1]
+    others = [x for x in all_ins if x[0] not in [i for i, _ in ins]] or all_ins[::-1]
+    try:
+        f2 = model.compile([others[0][0]], [P + o for o in outs])
+        for args in tuples[:8]:
+            ex += 1
+            for alt in others[0][1][:3]:
+                f2(to_lib(alt))
+                model.calculate({others[0][0]: to_lib(alt), all_ins[-1][0]: to_lib(all_ins[-1][1][1])})
+            res = func(*[to_lib(a) for a in args])
+            res = res if isinstance(res, (list, tuple)) and len(outs) > 1 else [res]
+            got = [val(r) for r in res]
+            sol = fresh.calculate({i: to_lib(a) for (i, _), a in zip(ins, args)})
+            exp = [val(sol[P + o]) for o in outs]
+            if any(not (g == e or close(g, e, 1e-12)) for g, e in zip(got, exp)):
+                fails.append(Fail('differs-from-calculate', got=str(got)[:120], exp=str(exp)[:120], args=str(args), call='after another compiled function and calculations on the same model', **desc))
+                break
+    except Exception as e:
+        fails.append(Fail('call-escape', got='%s:%s' % (exc_name(e), str(e)[:80]), exp='values', args='interference pass', **desc))
     return result(ex, sorted(oc), fails[:6])
 
 
